@@ -44,12 +44,9 @@ def payload(n, salt):
     return bytes(out[:n])
 
 
-def _free_port():
-    s = socket.socket()
-    s.bind(("127.0.0.1", 0))
-    p = s.getsockname()[1]
-    s.close()
-    return p
+def _free_port(ctx):
+    from lib import ports
+    return ports.free_port(ctx.shard, ctx.nshards)
 
 
 class Drain(threading.Thread):
@@ -96,7 +93,7 @@ def _case(ctx, idx, active, path, sizes, pacing, rcvbuf):
     import secsgem.hsms as H
 
     rng = ctx.rng
-    port = _free_port()
+    port = _free_port(ctx)
     mode = H.HsmsConnectMode.ACTIVE if active else H.HsmsConnectMode.PASSIVE
     settings = H.HsmsSettings(connect_mode=mode, address="127.0.0.1", port=port, t5=1, t6=5, t3=10)
     total = sum(sizes)
